@@ -1238,8 +1238,8 @@ def _parse_args(H_c: Hamiltonian, H_n: Hamiltonian, dt: Coefficients, **kwargs) 
     # Check the time argument for data type and monotonicity (should be increasing)
     if not np.isreal(dt).all():
         raise ValueError('Times dt are not (all) real!')
-    if (dt < 0).any():
-        raise ValueError('Time steps are not (all) positive!')
+    if (dt < 0).any() or not np.isfinite(dt).all():
+        raise ValueError('Time steps are not (all) positive and finite!')
 
     control_args = _parse_Hamiltonian(H_c, len(dt), 'H_c')
     noise_args = _parse_Hamiltonian(H_n, len(dt), 'H_n')
